@@ -345,11 +345,21 @@ class TypeChecker(walkers.dag.DagWalker):
         if to_skip or right.lower_bound != right.upper_bound:
             pass
         else:
-            left_lower = -float("inf") if left.lower_bound is None else left.lower_bound
-            left_upper = float("inf") if left.upper_bound is None else left.upper_bound
-            right = right.lower_bound
-            lower = min(left_lower / right, left_upper / right)
-            upper = max(left_lower / right, left_upper / right)
+            # exact rational arithmetic: int / int would give a binary float
+            divisor = Fraction(right.lower_bound)
+            sign = 1 if divisor > 0 else -1
+            left_lower = (
+                -float("inf") * sign
+                if left.lower_bound is None
+                else Fraction(left.lower_bound) / divisor
+            )
+            left_upper = (
+                float("inf") * sign
+                if left.upper_bound is None
+                else Fraction(left.upper_bound) / divisor
+            )
+            lower = min(left_lower, left_upper)
+            upper = max(left_lower, left_upper)
         if lower == -float("inf"):
             lower = None
         if upper == float("inf"):
